@@ -328,6 +328,16 @@ func (r *Report) finish() int {
 		"trusted_base":  r.trusted,
 		"notes":         r.notes,
 		"checker_cmd":   fmt.Sprintf("bin/imverif check %s --tier %s", r.Prop, r.Tier),
+		"violation_keys": func() []string {
+			var ks []string
+			for _, o := range viol {
+				ks = append(ks, o.Rule+" | "+o.Key)
+			}
+			for _, f := range r.fatal {
+				ks = append(ks, "CHECKER | "+f)
+			}
+			return ks
+		}(),
 	}
 	for k, v := range r.extra {
 		cov[k] = v
